@@ -14,6 +14,7 @@ func (e *Engine) setupModels() {
 	e.setupAtomic()
 	e.setupFlag()
 	e.setupSort()
+	e.setupTemplate()
 	e.setupHTTPRequestModel()
 }
 
